@@ -51,21 +51,32 @@ func failOnce(rep *common.Report, f common.OracleFailure) {
 	}
 }
 
-// ---------- engine persist ----------
+// ---------- engines persist + history ----------
 
+// SaveCase: one automatic save under a file-size limit, in a given environment of the store path; with
+// Change2 set it is a two-step HISTORY: after the cut save the server restarts on what is left, one more
+// change is acknowledged, the service stops gracefully and restarts once more.
 type SaveCase struct {
-	Engine string `json:"engine"` // "persist"
-	Users  []User `json:"users"`  // the store before the change
-	PskLen int    `json:"psk_len"`
-	Change Change `json:"change"`
-	Mode   string `json:"mode"`
-	Limit  int64  `json:"limit"`
+	Engine   string  `json:"engine"` // "persist" | "history"
+	Users    []User  `json:"users"`  // the store before the change
+	PskLen   int     `json:"psk_len"`
+	Change   Change  `json:"change"`
+	Mode     string  `json:"mode"`
+	Limit    int64   `json:"limit"`
+	Kind     string  `json:"kind"`     // reg | link-same | link-other: the store path is a regular file / a symlink to a file in the same / another directory
+	Leftover string  `json:"leftover"` // none | fixed (<store>.tmp) | pattern (<store>.<digits>.tmp): a stray file next to the store before the save
+	Change2  *Change `json:"change2,omitempty"`
 }
+
+var leftoverContent = []byte("{\n    \"stale")
 
 type remains struct {
 	target   []byte
 	present  bool
-	tmps     []string // hex contents of other files in the directory, sorted
+	isLink   bool
+	dest     []byte
+	hasDest  bool
+	tmps     []string // hex contents of the other files in the store's directory, sorted
 	status   string   // exit | killed:<signal>
 	res      SaveResult
 	childErr string
@@ -86,21 +97,41 @@ func hexField(b []byte) string {
 	return hex.EncodeToString(b)
 }
 
-// runSaveChild runs one save in a fresh directory and collects what is left on disk.
-func runSaveChild(base string, idx int, c SaveCase) remains {
-	var rm remains
-	dir := filepath.Join(base, fmt.Sprintf("p%d", idx))
-	if err := os.MkdirAll(dir, 0o755); err != nil {
-		rm.childErr = err.Error()
-		return rm
-	}
-	defer os.RemoveAll(dir)
+// setupStore creates the environment of a case in dir and returns the configured store path.
+func setupStore(dir string, c SaveCase) (string, error) {
 	path := filepath.Join(dir, "upsks.json")
-	if err := os.WriteFile(path, docOf(c.Users), 0o644); err != nil {
-		rm.childErr = err.Error()
-		return rm
+	doc := docOf(c.Users)
+	var err error
+	switch c.Kind {
+	case "link-same":
+		if err = os.WriteFile(filepath.Join(dir, "dest.json"), doc, 0o644); err == nil {
+			err = os.Symlink("dest.json", path)
+		}
+	case "link-other":
+		if err = os.MkdirAll(filepath.Join(dir, "sub"), 0o755); err == nil {
+			if err = os.WriteFile(filepath.Join(dir, "sub", "dest.json"), doc, 0o644); err == nil {
+				err = os.Symlink(filepath.Join(dir, "sub", "dest.json"), path)
+			}
+		}
+	default:
+		err = os.WriteFile(path, doc, 0o644)
 	}
-	spec, _ := json.Marshal(SaveSpec{Path: path, PskLen: c.PskLen, Change: c.Change, Mode: c.Mode, Limit: c.Limit})
+	if err != nil {
+		return "", err
+	}
+	switch c.Leftover {
+	case "fixed":
+		err = os.WriteFile(path+".tmp", leftoverContent, 0o600)
+	case "pattern":
+		err = os.WriteFile(path+".4242424242.tmp", leftoverContent, 0o600)
+	}
+	return path, err
+}
+
+// runChildIn runs one server life (register, change, save under the limit, stop) on the store in dir.
+func runChildIn(dir, path string, pskLen int, ch Change, mode string, limit int64) remains {
+	var rm remains
+	spec, _ := json.Marshal(SaveSpec{Path: path, PskLen: pskLen, Change: ch, Mode: mode, Limit: limit})
 	cmd := exec.Command(selfExe(), "child-save")
 	cmd.Env = append(os.Environ(), "C20_SPEC="+string(spec), "GOMAXPROCS=2")
 	var out, errb bytes.Buffer
@@ -123,20 +154,52 @@ func runSaveChild(base string, idx int, c SaveCase) remains {
 			rm.childErr = "child stage " + rm.res.Stage + ": " + rm.res.Err
 		}
 	}
+	if fi, err := os.Lstat(path); err == nil {
+		rm.isLink = fi.Mode()&os.ModeSymlink != 0
+	}
+	if b, err := os.ReadFile(path); err == nil { // follows a link, as the loader does
+		rm.target, rm.present = b, true
+	}
 	ents, _ := os.ReadDir(dir)
 	for _, e := range ents {
+		if e.Name() == "upsks.json" || e.IsDir() {
+			continue
+		}
 		b, err := os.ReadFile(filepath.Join(dir, e.Name()))
 		if err != nil {
 			continue
 		}
-		if e.Name() == "upsks.json" {
-			rm.target, rm.present = b, true
+		if e.Name() == "dest.json" {
+			rm.dest, rm.hasDest = b, true
 		} else {
 			rm.tmps = append(rm.tmps, hexField(b))
 		}
 	}
+	if b, err := os.ReadFile(filepath.Join(dir, "sub", "dest.json")); err == nil {
+		rm.dest, rm.hasDest = b, true
+	}
 	sort.Strings(rm.tmps)
 	return rm
+}
+
+// runSaveCase runs a case (one or two server lives) in a fresh directory.
+func runSaveCase(base string, idx int, c SaveCase) (rm1, rm2 remains) {
+	dir := filepath.Join(base, fmt.Sprintf("p%d", idx))
+	if err := os.MkdirAll(dir, 0o755); err != nil {
+		rm1.childErr = err.Error()
+		return
+	}
+	defer os.RemoveAll(dir)
+	path, err := setupStore(dir, c)
+	if err != nil {
+		rm1.childErr = err.Error()
+		return
+	}
+	rm1 = runChildIn(dir, path, c.PskLen, c.Change, c.Mode, c.Limit)
+	if rm1.childErr == "" && c.Change2 != nil {
+		rm2 = runChildIn(dir, path, c.PskLen, *c.Change2, "efbig", -1)
+	}
+	return
 }
 
 func tail(s string) string {
@@ -227,10 +290,11 @@ func genChange(r *common.Rng, us []User, op string, pskLen int) Change {
 }
 
 type saveJob struct {
-	c      SaveCase
-	oldDoc []byte
-	newDoc []byte
-	rm     remains
+	c        SaveCase
+	oldDoc   []byte
+	newDoc   []byte
+	rm, rm2  remains
+	formatOK bool // docOf reproduces the serialisation the code uses (needed to tell the model the step-2 documents)
 }
 
 func parallel(n int, f func(i int)) {
@@ -248,19 +312,67 @@ func parallel(n int, f func(i int)) {
 	wg.Wait()
 }
 
-// evalSaveJobs runs the children, the model and the oracle for a batch of cases.
+func modelKind(k string) string {
+	if strings.HasPrefix(k, "link") {
+		return "link"
+	}
+	return "reg"
+}
+
+func leftoverOr(s string) string {
+	if s == "" {
+		return "none"
+	}
+	return s
+}
+
+func remainsLine(rm remains, errFlag int) string {
+	tg := "absent"
+	if rm.present {
+		tg = hexField(rm.target)
+	}
+	tm := "none"
+	if len(rm.tmps) > 0 {
+		tm = strings.Join(rm.tmps, ";")
+	}
+	link := 0
+	if rm.isLink {
+		link = 1
+	}
+	dest := "none"
+	if rm.hasDest {
+		dest = hexField(rm.dest)
+	}
+	return fmt.Sprintf("target=%s tmps=%s err=%d link=%d dest=%s", tg, tm, errFlag, link, dest)
+}
+
+func envText(c SaveCase) string {
+	return fmt.Sprintf("store path: %s, stray file next to it: %s", map[string]string{"reg": "regular file", "": "regular file", "link-same": "symlink to a file in the same directory",
+		"link-other": "symlink to a file in another directory"}[c.Kind], leftoverOr(c.Leftover))
+}
+
+// evalSaveJobs runs the children, the model and the oracles for a batch of cases.
 func evalSaveJobs(base string, jobs []*saveJob, o *common.Options, rep *common.Report, offset int) error {
 	parallel(len(jobs), func(i int) {
-		jobs[i].rm = runSaveChild(base, offset+i, jobs[i].c)
+		jobs[i].rm, jobs[i].rm2 = runSaveCase(base, offset+i, jobs[i].c)
 		if jobs[i].rm.childErr != "" { // one retry: the child is a real-time program
-			jobs[i].rm = runSaveChild(base, offset+i, jobs[i].c)
+			jobs[i].rm, jobs[i].rm2 = runSaveCase(base, offset+i, jobs[i].c)
 		}
 	})
 	var model []string
 	if o.Driver != "" {
 		var lines []string
 		for _, j := range jobs {
-			lines = append(lines, fmt.Sprintf("save %s %d %s %s", j.c.Mode, j.c.Limit, hexField(j.oldDoc), hexField(j.newDoc)))
+			c := j.c
+			if c.Change2 != nil && j.formatOK {
+				n2a := docOf(applyTo(c.Users, *c.Change2))
+				n2b := docOf(applyTo(applyTo(c.Users, c.Change), *c.Change2))
+				lines = append(lines, fmt.Sprintf("hist %s %s %s %s %d %s %s %s %s", modelKind(c.Kind), leftoverOr(c.Leftover), hexField(leftoverContent),
+					c.Mode, c.Limit, hexField(j.oldDoc), hexField(j.newDoc), hexField(n2a), hexField(n2b)))
+			} else {
+				lines = append(lines, fmt.Sprintf("save %s %d %s %s %s %s %s", c.Mode, c.Limit, hexField(j.oldDoc), hexField(j.newDoc),
+					modelKind(c.Kind), leftoverOr(c.Leftover), hexField(leftoverContent)))
+			}
 		}
 		var err error
 		if model, err = common.RunDriverOnce(o.Driver, lines); err != nil {
@@ -270,15 +382,23 @@ func evalSaveJobs(base string, jobs []*saveJob, o *common.Options, rep *common.R
 	for i, j := range jobs {
 		c, rm := j.c, j.rm
 		cut := int(c.Limit) < len(j.newDoc)
-		rep.Case(fmt.Sprintf("%s|%s|%v|%d|%s", canonUsers(c.Users), c.Mode, c.Change, c.Limit, c.Change.Op), cut)
-		rep.Count("persist:mode=" + c.Mode)
-		rep.Count(fmt.Sprintf("persist:users=%d", len(c.Users)))
-		rep.Count("persist:change=" + c.Change.Op)
+		hist := c.Change2 != nil
+		eng := "persist"
+		if hist {
+			eng = "history"
+		}
+		rep.Case(fmt.Sprintf("%s|%s|%s|%s|%s|%v|%d", eng, c.Kind, c.Leftover, canonUsers(c.Users), c.Mode, c.Change, c.Limit), cut)
+		rep.Count(eng + ":mode=" + c.Mode)
+		rep.Count(fmt.Sprintf("%s:users=%d", eng, len(c.Users)))
+		rep.Count(eng + ":change=" + c.Change.Op)
+		rep.Count(eng + ":kind=" + c.Kind)
+		rep.Count(eng + ":leftover=" + leftoverOr(c.Leftover))
 		if rm.childErr != "" {
-			rep.Diverge(common.Divergence{Engine: "persist", Case: c, Impl: rm.childErr, Model: "", Note: "child process failed"})
+			rep.Diverge(common.Divergence{Engine: eng, Case: c, Impl: rm.childErr, Model: "", Note: "child process failed"})
 			continue
 		}
-		oldSet, newSet := canonUsers(c.Users), canonUsers(applyTo(c.Users, c.Change))
+		newUsers := applyTo(c.Users, c.Change)
+		oldSet, newSet := canonUsers(c.Users), canonUsers(newUsers)
 		set, lerr := loadReal(base, offset+i, rm.target, rm.present, c.PskLen)
 		verdict := "other"
 		switch {
@@ -293,16 +413,8 @@ func evalSaveJobs(base string, jobs []*saveJob, o *common.Options, rep *common.R
 		case set == "":
 			verdict = "empty"
 		}
-		rep.Count("persist:loader=" + verdict)
-		rep.Count("persist:child=" + rm.status)
-		tg := "absent"
-		if rm.present {
-			tg = hexField(rm.target)
-		}
-		tm := "none"
-		if len(rm.tmps) > 0 {
-			tm = strings.Join(rm.tmps, ";")
-		}
+		rep.Count(eng + ":loader=" + verdict)
+		rep.Count(eng + ":child=" + rm.status)
 		errFlag := 0
 		if rm.res.SaveErr {
 			errFlag = 1
@@ -310,71 +422,123 @@ func evalSaveJobs(base string, jobs []*saveJob, o *common.Options, rep *common.R
 		if cut && c.Mode == "kill" {
 			// the process died at the write: its error flag is whatever the model holds at that instant
 			if !strings.HasPrefix(rm.status, "killed:") {
-				rep.Diverge(common.Divergence{Engine: "persist", Case: c, Impl: rm.status, Model: "killed by SIGXFSZ", Note: "crash injection did not fire"})
+				rep.Diverge(common.Divergence{Engine: eng, Case: c, Impl: rm.status, Model: "killed by SIGXFSZ", Note: "crash injection did not fire"})
 				continue
 			}
 			errFlag = 1
 		}
-		implLine := fmt.Sprintf("target=%s tmps=%s err=%d", tg, tm, errFlag)
-		if i < 3 {
+		implLine := remainsLine(rm, errFlag)
+		if i < 2 {
 			rep.Sample(map[string]any{"case": c, "remains": implLine, "loader": verdict, "child": rm.status})
 		}
-		if model != nil {
-			ml := model[i]
-			mv := ""
+		stripVerdict := func(ml string) (string, string) {
 			if k := strings.LastIndex(ml, " verdict="); k >= 0 {
-				mv, ml = ml[k+len(" verdict="):], ml[:k]
+				return ml[:k], ml[k+len(" verdict="):]
 			}
+			return ml, ""
+		}
+		if model != nil && !(hist && j.formatOK) {
+			ml, mv := stripVerdict(model[i])
 			if ml != implLine {
-				rep.Diverge(common.Divergence{Engine: "persist", Case: c, Impl: implLine, Model: ml, Note: "remains on disk differ from the model's file system"})
+				rep.Diverge(common.Divergence{Engine: eng, Case: c, Impl: implLine, Model: ml, Note: "remains on disk differ from the model's file system"})
 			} else if mv != "other" && mv != verdict && !(mv == "empty" && verdict == "old" && oldSet == "") && !(mv == "empty" && verdict == "new" && newSet == "") &&
 				!(mv == "old" && verdict == "new" && oldSet == newSet) {
-				rep.Diverge(common.Divergence{Engine: "persist", Case: c, Impl: verdict, Model: mv, Note: "loader verdict differs"})
+				rep.Diverge(common.Divergence{Engine: eng, Case: c, Impl: verdict, Model: mv, Note: "loader verdict differs"})
 			} else if mv == "other" && rm.present && len(rm.target) > 0 && bytes.HasPrefix(j.newDoc, rm.target) && len(rm.target) < len(j.newDoc) &&
 				verdict != "error" && verdict != "new" {
 				// hypothesis Codec.PrefixUnloadable of the Lean development, checked against the real decoder
-				rep.Diverge(common.Divergence{Engine: "persist", Case: c, Impl: verdict, Model: "error|new", Note: "a strict prefix of a document loaded to another set (hypothesis prefix_unloadable refuted)"})
+				rep.Diverge(common.Divergence{Engine: eng, Case: c, Impl: verdict, Model: "error|new", Note: "a strict prefix of a document loaded to another set (hypothesis prefix_unloadable refuted)"})
 			}
 			rep.TracesValidated++
 		}
-		// ---- property oracle: the loader succeeds and yields the old or the new set ----
-		if verdict != "old" && verdict != "new" && !(verdict == "empty" && (oldSet == "" || newSet == "")) {
+		// ---- property oracle 1: after the crash / failed write the loader succeeds and yields the old or the new set ----
+		ok1 := verdict == "old" || verdict == "new" || (verdict == "empty" && (oldSet == "" || newSet == ""))
+		if !ok1 {
 			key := "store-destroyed:" + verdict
 			if rm.present && bytes.HasPrefix(j.newDoc, rm.target) && len(rm.target) < len(j.newDoc) {
 				key = keyF13
 			}
-			failOnce(rep, common.OracleFailure{Engine: "persist", Key: key, Case: c,
-				Detail: fmt.Sprintf("store of %d users, %s %q, %s at byte %d of %d: store file now holds %d bytes; start-up loader: %s (%v); expected the old or the new user set",
-					len(c.Users), c.Change.Op, c.Change.Name, map[string]string{"kill": "process killed", "efbig": "write error (EFBIG)"}[c.Mode], c.Limit, len(j.newDoc), len(rm.target), verdict, lerr)})
+			failOnce(rep, common.OracleFailure{Engine: eng, Key: key, Case: c,
+				Detail: fmt.Sprintf("store of %d users (%s), %s %q, %s at byte %d of %d: the store path now reads %d bytes; start-up loader: %s (%v); expected the old or the new user set",
+					len(c.Users), envText(c), c.Change.Op, c.Change.Name, map[string]string{"kill": "process killed", "efbig": "write error (EFBIG)"}[c.Mode], c.Limit, len(j.newDoc), len(rm.target), verdict, lerr)})
 		}
 		if !cut && verdict != "new" && oldSet != newSet {
-			failOnce(rep, common.OracleFailure{Engine: "persist", Key: "save-without-fault-not-written", Case: c,
-				Detail: fmt.Sprintf("no fault injected (limit %d >= %d) but the loader sees %s", c.Limit, len(j.newDoc), verdict)})
+			failOnce(rep, common.OracleFailure{Engine: eng, Key: "save-without-fault-not-written", Case: c,
+				Detail: fmt.Sprintf("%s; no fault injected (limit %d >= %d), change acknowledged, service stopped, but the loader sees %s; save errors logged: %v", envText(c), c.Limit, len(j.newDoc), verdict, rm.res.Logs)})
+		}
+		if !hist || !ok1 {
+			continue
+		}
+		// ---- step 2 of a history: restart on the remains, one more acknowledged change, graceful stop, restart ----
+		rm2 := j.rm2
+		if rm2.childErr != "" {
+			rep.Diverge(common.Divergence{Engine: eng, Case: c, Impl: rm2.childErr, Model: "", Note: "restarted server failed (step 2 of the history)"})
+			continue
+		}
+		base2 := c.Users
+		if set == newSet {
+			base2 = newUsers
+		}
+		want2 := canonUsers(applyTo(base2, *c.Change2))
+		set2, lerr2 := loadReal(base, offset+i, rm2.target, rm2.present, c.PskLen)
+		err2 := 0
+		if rm2.res.SaveErr {
+			err2 = 1
+		}
+		if model != nil && j.formatOK {
+			ml, _ := stripVerdict(model[i])
+			implLine2 := "step1=" + verdict + " " + remainsLine(rm2, err2)
+			if ml != implLine2 {
+				rep.Diverge(common.Divergence{Engine: eng, Case: c, Impl: implLine2, Model: ml, Note: "remains after the two-step history differ from the model's file system"})
+			}
+			rep.TracesValidated++
+		}
+		// ---- property oracle 2: the file holds every change acknowledged before the stop ----
+		if lerr2 != nil || set2 != want2 {
+			failOnce(rep, common.OracleFailure{Engine: eng, Key: "history:acked-change-not-written-after-restart", Case: c,
+				Detail: fmt.Sprintf("%s; save 1 (%s %q) %s at byte %d of %d -> restart loads the %s set; then %s %q acknowledged, graceful Stop, restart: loader yields [%s] (err %v), want [%s]; save errors logged by the restarted server: %v",
+					envText(c), c.Change.Op, c.Change.Name, map[string]string{"kill": "killed", "efbig": "EFBIG"}[c.Mode], c.Limit, len(j.newDoc), verdict,
+					c.Change2.Op, c.Change2.Name, set2, lerr2, want2, rm2.res.Logs)})
 		}
 	}
 	return nil
 }
 
-// expand: one (store, change) -> the unlimited probe run, then every byte count x both modes.
-func expand(base string, users []User, pskLen int, ch Change, idx *int) ([]*saveJob, error) {
-	probe := SaveCase{Engine: "persist", Users: users, PskLen: pskLen, Change: ch, Mode: "efbig", Limit: -1}
+// expand: one (store, change, environment) -> the unlimited probe run in a plain directory (it yields the
+// document as the code serialises it), then every byte count x both modes; `histEvery` > 0 adds the second
+// server life to every histEvery-th byte count (1 = all).
+func expand(base string, users []User, pskLen int, ch Change, kind, leftover string, histEvery int, r *common.Rng, idx *int) ([]*saveJob, error) {
+	probe := SaveCase{Engine: "persist", Users: users, PskLen: pskLen, Change: ch, Mode: "efbig", Limit: -1, Kind: "reg", Leftover: "none"}
 	*idx++
-	rm := runSaveChild(base, *idx, probe)
+	rm, _ := runSaveCase(base, *idx, probe)
 	if rm.childErr != "" || !rm.present {
-		rm = runSaveChild(base, *idx, probe)
+		rm, _ = runSaveCase(base, *idx, probe)
 	}
 	if rm.childErr != "" || !rm.present {
 		return nil, fmt.Errorf("probe run failed: %s", rm.childErr)
 	}
 	newDoc := rm.target
 	oldDoc := docOf(users)
+	formatOK := bytes.Equal(newDoc, docOf(applyTo(users, ch)))
+	ch2 := Change{Op: "add", Name: "carol", Key: r.Bytes(pskLen)}
 	var jobs []*saveJob
 	for k := 0; k <= len(newDoc); k++ {
 		for _, mode := range []string{"kill", "efbig"} {
-			jobs = append(jobs, &saveJob{c: SaveCase{Engine: "persist", Users: users, PskLen: pskLen, Change: ch, Mode: mode, Limit: int64(k)}, oldDoc: oldDoc, newDoc: newDoc})
+			c := SaveCase{Engine: "persist", Users: users, PskLen: pskLen, Change: ch, Mode: mode, Limit: int64(k), Kind: kind, Leftover: leftover}
+			if histEvery > 0 && (k%histEvery == 0 || k >= len(newDoc)-1) {
+				c.Engine = "history"
+				c2 := ch2
+				c.Change2 = &c2
+			}
+			jobs = append(jobs, &saveJob{c: c, oldDoc: oldDoc, newDoc: newDoc, formatOK: formatOK})
 		}
 	}
 	return jobs, nil
+}
+
+var envTable = [][2]string{
+	{"reg", "fixed"}, {"link-same", "none"}, {"link-other", "pattern"}, {"reg", "none"},
+	{"link-same", "fixed"}, {"reg", "pattern"}, {"link-other", "none"}, {"link-same", "pattern"}, {"link-other", "fixed"},
 }
 
 func enginePersist(base string, o *common.Options, rep *common.Report) error {
@@ -397,15 +561,21 @@ func enginePersist(base string, o *common.Options, rep *common.Report) error {
 		}
 		for v := 0; v < variants; v++ {
 			rr := r.Fork(uint64(gi))
-			gi++
 			pskLen := 16
 			if o.Thorough() && rr.Bool() {
 				pskLen = 32
 			}
 			op := ops[(n+v+int(o.Seed))%3]
+			env := envTable[gi%len(envTable)]
+			gi++
 			users := genStore(rr, n, pskLen)
 			ch := genChange(rr, users, op, pskLen)
-			jobs, err := expand(base, users, pskLen, ch, &idx)
+			// histories: every byte count for the small stores, every 8th for the larger ones
+			histEvery := 8
+			if n <= 1 || o.Thorough() && n <= 3 {
+				histEvery = 1
+			}
+			jobs, err := expand(base, users, pskLen, ch, env[0], env[1], histEvery, rr, &idx)
 			if err != nil {
 				return err
 			}
@@ -694,8 +864,9 @@ func main() {
 	}
 	o := common.ParseFlags()
 	rep := common.NewReport("C20", o)
-	rep.Engines = []string{"persist", "stop"}
-	rep.Rule = "engine persist: stores of 0..N users (N=3 quick, 6 thorough with two stores per size and 16/32-byte keys; names with JSON-special characters) x one API change (add/delete/update) x RLIMIT_FSIZE = every byte count 0..len(new document) x {process killed by SIGXFSZ, write returns EFBIG}, each in its own child process running the real cred.Manager; " +
+	rep.Engines = []string{"persist", "history", "stop"}
+	rep.Rule = "engine persist: stores of 0..N users (N=3 quick, 6 thorough with two stores per size and 16/32-byte keys; names with JSON-special characters) x one API change (add/delete/update) x RLIMIT_FSIZE = every byte count 0..len(new document) x {process killed by SIGXFSZ, write returns EFBIG}, each in its own child process running the real cred.Manager, in rotating environments of the store path (regular file / symlink to a file in the same / another directory; stray <store>.tmp or <store>.<digits>.tmp next to it); " +
+		"engine history: the same cut save, then the server restarts on the remains, one more change is acknowledged, graceful Stop, restart (every byte count for stores of 0..1 users, every 8th otherwise); " +
 		"non-trivial = the limit cuts the document; distinct by (store, change, mode, limit). engine stop: shutdown scripts over {change, Wait, cool-down, cancel, Stop} under testing/synctest, repeated (select is random), GOMAXPROCS 1 and all cores; non-trivial = at least one change acknowledged before the cancellation"
 	base, err := os.MkdirTemp("", "c20-corr-")
 	if err == nil {
@@ -742,14 +913,18 @@ func replay(base string, o *common.Options, rep *common.Report) error {
 	if err := common.LoadReplay(o.Replay, &c); err != nil {
 		return err
 	}
+	if c.Kind == "" {
+		c.Kind = "reg"
+	}
 	idx := 0
-	jobs, err := expand(base, c.Users, c.PskLen, c.Change, &idx)
+	jobs, err := expand(base, c.Users, c.PskLen, c.Change, c.Kind, c.Leftover, 0, common.NewRng(o.Seed), &idx)
 	if err != nil {
 		return err
 	}
 	var one []*saveJob
 	for _, j := range jobs {
 		if j.c.Mode == c.Mode && j.c.Limit == c.Limit {
+			j.c.Change2, j.c.Engine = c.Change2, c.Engine
 			one = append(one, j)
 		}
 	}
